@@ -10,8 +10,15 @@ Decided (structural clauses, nothing executed):
   R36.2 (E5) the escape set of ``FlowReader.stream`` (tnetstring.load -> compat.migrate_flow (all converters) -> Flow.from_state
         -> every set_state/from_state reachable by class-hierarchy dispatch) on untrusted file content consists of
         FlowReadException only: every explicit raise and every modelled implicit raiser (see _helpers_H) is converted.
-  R36.3 tnetstring type tags: the (python type -> tag) table written by ``_rdumpq`` equals the (tag -> python type) table parsed
-        by ``parse``.
+  R36.3 tnetstring wire format: ``dumps``/``_rdumpq`` and ``loads``/``load``/``pop``/``parse``/``split`` are interpreted from their ASTs
+        (pyint) on representatives of every serialisable type - scalars, byte strings containing the format's own delimiters, text
+        whose UTF-8 length differs from its character count (2-, 3-, 4-byte code points), empty / nested / mixed containers, a
+        flow-shaped state dict - and three obligations are compared with a reference model of the format coded from its
+        specification: what the writer produces is a well-formed tnetstring denoting the value (length prefixes of the value AND of
+        every enclosing container), the reader maps it back to the same value with the same types, and the reader accepts the
+        canonical form; a stream of several dumped values is read back value by value by ``load``.  Merged / reordered branches,
+        other local names or helper functions are analysed, not refused.  In addition, when ``_rdumpq`` is still an if-chain of
+        literal chunks, the (python type -> tag) table it writes equals the (tag -> python type) table of ``parse`` (structural).
 NOT decided: value-level equality of a saved and re-loaded flow; exceptions outside the modelled table (MemoryError, OSError of the
 file object, ``__setattr__`` overrides, exceptions thrown into the generator by its consumer).
 """
@@ -37,10 +44,12 @@ from ._helpers_H import MayRaise
 PROP = "C36"
 REG = {
     "strength": "partial",
-    "technique": "exception-escape sets vs. handler coverage over the resolved call graph (E5) + writer/reader key agreement (E6)",
+    "technique": "exception-escape sets vs. handler coverage over the resolved call graph (E5) + writer/reader key agreement (E6) + "
+    "AST interpretation of the tnetstring writer/reader against a reference model of the format",
     "claim": "every explicit raise and every modelled implicit raiser reachable from FlowReader.stream on untrusted file content leaves "
     "it as FlowReadException; every hand-written get_state/set_state/from_state triple agrees on its keys / positions; the tnetstring "
-    "writer and parser agree on the type-tag table.",
+    "writer and parser, interpreted from their ASTs on representatives of every type (incl. nested non-ASCII text), produce well-formed "
+    "output that reads back identically and agree on the type-tag table.",
     "note": "Implicit raisers are the modelled table of _helpers_H (KeyError/IndexError/TypeError/AttributeError/ValueError/Unicode*/"
     "AssertionError/OverflowError/RecursionError on untrusted data); dynamic dispatch is over-approximated by class-hierarchy analysis "
     "of Serializable implementors; third-party parsers (cryptography x509, wsproto Opcode) are summarised in the trusted base.",
@@ -444,7 +453,7 @@ def _one_implementor(ctx, m, c):
 # R36.3 tnetstring tag tables
 
 
-def _r36_3(ctx):
+def _r36_3_tags(ctx):
     dump, parse = ctx.func(TN, "_rdumpq"), ctx.func(TN, "parse")
     # writer: walk the if/elif chain; the first write(...) of a branch pushes the LAST chunk, whose last byte is the tag
     ctx.require(any(isinstance(n, ast.Assign) and norm(n) == "write = q.appendleft" for n in dump.body), "_rdumpq no longer pushes chunks last-first")
@@ -505,7 +514,177 @@ def _r36_3(ctx):
     ctx.cells += len(writer) + len(reader)
     ctx.check(writer == reader and len(writer) == 8, "R36.3", (TN, "_rdumpq", dump), "tnetstring type-tag table",
               f"written {sorted(writer.items())} != parsed {sorted(reader.items())}", desc=f"8 tags agree: {sorted(writer.items())}")
-    ctx.expect_instances("R36.3", 1)
+
+
+# ---- reference model of the wire format (coded from the tnetstring specification + mitmproxy's `;` text extension), used only to cross-read
+# what the interpreted repository writer produced and to produce canonical input for the interpreted repository parser.
+
+
+def _ref_dumps(v) -> bytes:
+    if v is None:
+        return b"0:~"
+    if v is True:
+        return b"4:true!"
+    if v is False:
+        return b"5:false!"
+    if isinstance(v, int):
+        body, tag = str(v).encode(), b"#"
+    elif isinstance(v, float):
+        body, tag = repr(v).encode(), b"^"
+    elif isinstance(v, bytes):
+        body, tag = v, b","
+    elif isinstance(v, str):
+        body, tag = v.encode("utf8"), b";"
+    elif isinstance(v, (list, tuple)):
+        body, tag = b"".join(_ref_dumps(x) for x in v), b"]"
+    elif isinstance(v, dict):
+        body, tag = b"".join(_ref_dumps(k) + _ref_dumps(x) for k, x in v.items()), b"}"
+    else:
+        raise AnalysisError(f"R36.3 domain value of unserialisable type {type(v).__name__}")
+    return str(len(body)).encode() + b":" + body + tag
+
+
+def _ref_pop(data: bytes):
+    n, sep, rest = data.partition(b":")
+    if not sep or not n.isdigit():
+        raise ValueError(f"invalid length prefix {data[:12]!r}")
+    n = int(n)
+    if len(rest) < n + 1:
+        raise ValueError(f"length prefix {n} exceeds the {len(rest)} bytes that follow")
+    body, tag, remain = rest[:n], rest[n : n + 1], rest[n + 1 :]
+    if tag == b",":
+        return body, remain
+    if tag == b";":
+        return body.decode("utf8"), remain
+    if tag == b"#":
+        return int(body), remain
+    if tag == b"^":
+        return float(body), remain
+    if tag == b"!":
+        if body not in (b"true", b"false"):
+            raise ValueError(f"invalid boolean {body!r}")
+        return body == b"true", remain
+    if tag == b"~":
+        if body:
+            raise ValueError("invalid null")
+        return None, remain
+    if tag == b"]":
+        out = []
+        while body:
+            x, body = _ref_pop(body)
+            out.append(x)
+        return out, remain
+    if tag == b"}":
+        d = {}
+        while body:
+            k, body = _ref_pop(body)
+            x, body = _ref_pop(body)
+            if isinstance(k, (list, dict)):
+                raise ValueError(f"unhashable dictionary key {k!r}")
+            d[k] = x
+        return d, remain
+    raise ValueError(f"unknown type tag {tag!r}")
+
+
+def _same(a, b) -> bool:
+    """Equality that also compares types (True != 1, b'a' != 'a', 1 != 1.0); a tuple is read back as a list."""
+    if isinstance(a, tuple):
+        a = list(a)
+    if isinstance(b, tuple):
+        b = list(b)
+    if type(a) is not type(b):
+        return False
+    if isinstance(a, list):
+        return len(a) == len(b) and all(_same(x, y) for x, y in zip(a, b))
+    if isinstance(a, dict):
+        return len(a) == len(b) and all(any(_same(k, k2) and _same(v, v2) for k2, v2 in b.items()) for k, v in a.items())
+    if isinstance(a, float):
+        return repr(a) == repr(b)
+    return a == b
+
+
+TN_DOMAIN = {
+    "scalars": [None, True, False, 0, 1, -17, 2**70, 0.0, 1.5, -2.25e-7, 1e300, float("inf")],
+    "byte and text strings": [b"", b"abc", b"\x00\xff:,;]}~", b"12:ab", "", "ascii", "gr\u00f6\u00dfe", "\u65e5\u672c\u8a9e", "\U0001f600 ok", "a" * 300],
+    "containers": [
+        [], {}, [1, "x", b"y", None, True, 2.5], (1, (2, 3)), [[["deep"]]], {"k": "v"}, {b"bytes-key": 1, "str-key": b"v"},
+        ["gr\u00f6\u00dfe"], {"comment": "gr\u00f6\u00dfe"}, {"\u00fcber": 1}, [["\U0001f600"], {"a": {"b": ["\u00e9", {"c": "\u65e5\u672c"}]}}],
+        {"type": "http", "comment": "caf\u00e9 \u2615", "marked": "", "metadata": {"note": "\u00fc", "n": 3}, "timestamp_created": 1700000000.25, "error": None,
+         "request": {"headers": [[b"host", b"example.com"], [b"x", b"\xff"]], "content": b"\x00\x01", "trailers": None, "port": 443}},
+    ],
+}
+
+
+def _r36_3(ctx):
+    """The writer (dumps/_rdumpq) and the reader (loads/load/pop/parse/split) are INTERPRETED from their ASTs (pyint; nothing is executed) on
+    representatives of every serialisable type, including text whose UTF-8 length differs from its character count nested in containers."""
+    import collections
+    import io
+
+    from ..pyint import Interp
+    from ..pyint import Raised
+
+    dump = ctx.func(TN, "_rdumpq")
+    for q in ("dumps", "loads", "load", "pop", "parse", "split"):
+        ctx.func(TN, q)
+
+    def run(fn, *args):
+        it = Interp(ctx.model, trusted_modules={"collections": collections}, max_depth=60)
+        it.overrides[(TN, "memoryview")] = memoryview
+        ctx.cells += 1
+        try:
+            return ("ok", it.call(TN, fn, *args))
+        except Raised as r:
+            return ("raise", f"{r.name}: {r.msg}"[:120])
+
+    def show(v):
+        t = repr(v)
+        return t if len(t) <= 70 else t[:67] + "..."
+
+    for cls, values in TN_DOMAIN.items():
+        wit = None
+        for v in values:
+            w = run("dumps", v)
+            if w[0] != "ok" or not isinstance(w[1], bytes):
+                wit = wit or f"dumps({show(v)}) -> {w[1] if w[0] == 'raise' else type(w[1]).__name__}"
+                continue
+            wire = w[1]
+            try:
+                back, rest = _ref_pop(wire)
+                if rest or not _same(v, back):
+                    wit = wit or f"dumps({show(v)}) = {show(wire)} which a tnetstring reader decodes as {show(back)}" + (f" + {len(rest)} stray bytes" if rest else "")
+            except (ValueError, UnicodeDecodeError) as e:
+                wit = wit or f"dumps({show(v)}) = {show(wire)} is not a well-formed tnetstring ({e})"
+            r = run("loads", wire)
+            if r[0] != "ok" or not _same(v, r[1]):
+                wit = wit or f"loads(dumps({show(v)})) -> {show(r[1])}"
+            r = run("loads", _ref_dumps(v)) if _ref_dumps(v) != wire else r
+            if r[0] != "ok" or not _same(v, r[1]):
+                wit = wit or f"loads({show(_ref_dumps(v))}) -> {show(r[1])}, expected {show(v)}"
+        ctx.check(wit is None, "R36.3", (TN, "_rdumpq", dump), f"tnetstring round trip: {cls}",
+                  f"a value is not written as a well-formed tnetstring that reads back as itself: {wit} - a saved flow (and every flow after it in the file) cannot be loaded",
+                  desc=f"tnetstring {cls}: {len(values)} representatives: written form is well-formed, reads back identically (interpreted writer x interpreted reader x reference)")
+    # file level: FlowReader calls load(fo) repeatedly on one stream
+    seq = [TN_DOMAIN["containers"][-1], {"type": "tcp", "comment": "\u00e4\u00f6\u00fc"}, ["tail"]]
+    blob, wit = b"", None
+    for v in seq:
+        w = run("dumps", v)
+        blob += w[1] if w[0] == "ok" and isinstance(w[1], bytes) else b""
+    fo = io.BytesIO(blob)
+    for v in seq:
+        r = run("load", fo)
+        if r[0] != "ok" or not _same(v, r[1]):
+            wit = wit or f"load() of a stream of {len(seq)} dumped values yields {show(r[1])} where {show(v)} was written"
+            break
+    if wit is None and fo.read(1) != b"":
+        wit = "load() leaves unread bytes behind the last value"
+    ctx.check(wit is None, "R36.3", (TN, "load", ctx.func(TN, "load")), "tnetstring stream of values: load() x N",
+              f"{wit} - flows are not read back in the order / number they were saved", desc=f"stream of {len(seq)} dumped values is read back value by value by load()")
+    try:
+        _r36_3_tags(ctx)
+    except AnalysisError as e:
+        ctx.note(f"R36.3 structural tag table not extracted ({e}); the interpreted round trip above is the decision")
+    ctx.expect_instances("R36.3", 4)
 
 
 def check(ctx):
@@ -545,6 +724,13 @@ MUTANTS = [
     Mutant("flow-type-registry-keyed-by-classname", FLOW, "        Flow.__types[cls.type] = cls", "        Flow.__types[cls.__name__] = cls", "R36.1"),
     Mutant("new-nonserialised-field", "mitmproxy/connection.py", "    error: str | None = None\n", '    error: str | None = field(default=None, metadata={"serialize": False})\n', "R36.1"),
     # R36.3
+    Mutant("tnetstring-container-counts-characters-of-text", TN, '        write(b";")\n        write(data)\n        write(b":")\n        write(span)\n        return size + 2 + len(span) + ldata',
+           '        write(b";")\n        write(data)\n        write(b":")\n        write(span)\n        return size + 2 + len(span) + len(value)', "R36.3"),
+    Mutant("tnetstring-text-length-prefix-in-characters", TN, '        data = value.encode("utf8")\n        ldata = len(data)\n', '        data = value.encode("utf8")\n        ldata = len(value)\n', "R36.3"),
+    Mutant("tnetstring-list-size-misses-separator", TN, '            size = _rdumpq(q, size, item)\n        span = str(size - init_size).encode()\n        write(b":")\n        write(span)\n        return size + 1 + len(span)',
+           '            size = _rdumpq(q, size, item)\n        span = str(size - init_size).encode()\n        write(b":")\n        write(span)\n        return size + len(span)', "R36.3"),
+    Mutant("tnetstring-text-read-as-latin1", TN, '        return str(data, "utf8")', '        return str(data, "latin-1")', "R36.3"),
+    Mutant("tnetstring-dict-key-value-swapped", TN, "            size = _rdumpq(q, size, v)\n            size = _rdumpq(q, size, k)", "            size = _rdumpq(q, size, k)\n            size = _rdumpq(q, size, v)", "R36.3"),
     Mutant("tnetstring-float-written-with-int-tag", TN, 'write(b"%s:%s^" % (span, data))', 'write(b"%s:%s#" % (span, data))', "R36.3"),
     Mutant("tnetstring-parser-drops-null", TN, '    if data_type == ord(b"~"):\n        if data:\n            raise ValueError(f"not a tnetstring: invalid null literal: {data!r}")\n        return None\n', "", "R36.3"),
     Mutant("tnetstring-str-tag-swapped-in-parser", TN, '    if data_type == ord(b","):\n        return data.tobytes()\n    if data_type == ord(b";"):', '    if data_type == ord(b";"):\n        return data.tobytes()\n    if data_type == ord(b","):', "R36.3"),
